@@ -64,11 +64,9 @@ sqf::runtime::value sqf::parser::assembly::parser::get_value(::sqf::runtime::run
         case bison::astkind::CODE:
         {
             std::vector<::sqf::runtime::instruction::sptr> tmp_set;
-            bison::astnode previous_node;
-            for (size_t i = 0; i < node.children.size(); i++)
+            for (auto& child : node.children)
             {
-                previous_node = node.children[i];
-                to_assembly(runtime, contents, previous_node, tmp_set);
+                to_assembly(runtime, contents, child, tmp_set);
             }
             auto inst_set = ::sqf::runtime::instruction_set(tmp_set);
             return ::sqf::runtime::value(std::make_shared<::sqf::types::d_code>(inst_set));
@@ -84,35 +82,41 @@ sqf::runtime::value sqf::parser::assembly::parser::get_value(::sqf::runtime::run
             return ::sqf::runtime::value(std::make_shared<::sqf::types::d_array>(values));
         }
         break;
+        default:
+        break;
     }
+    return {};
 }
 void ::sqf::parser::assembly::parser::to_assembly(::sqf::runtime::runtime& runtime, std::string_view contents, const ::sqf::parser::assembly::bison::astnode& node, std::vector<::sqf::runtime::instruction::sptr>& set)
 {
-
+    // Location of an instruction: the keyword token of its node
+    auto diag_of = [&](const bison::astnode& n) -> ::sqf::runtime::diagnostics::diag_info {
+        return { n.token.line, n.token.column, n.token.offset, { n.token.path ? *n.token.path : std::string(), {} }, create_code_segment(contents, n.token.offset, n.token.contents.length()) };
+    };
+    // The operand (variable name, operator name, value) is the only child of an instruction node
+    auto operand = [&]() -> const bison::astnode* { return node.children.empty() ? nullptr : &node.children[0]; };
     switch (node.kind)
     {
-        case bison::astkind::ASSIGN_TO: {
-            auto inst = std::make_shared<::sqf::opcodes::assign_to>(::sqf::types::d_string::from_sqf(node.children[1].token.contents));
-            inst->diag_info({ node.token.line, node.token.column, node.token.offset, { *node.token.path, {} }, create_code_segment(contents, node.token.offset, node.token.contents.length()) });
+        case bison::astkind::ASSIGN_TO: if (operand()) {
+            auto inst = std::make_shared<::sqf::opcodes::assign_to>(::sqf::types::d_string::from_sqf(operand()->token.contents));
+            inst->diag_info(diag_of(node));
             set.push_back(inst);
         } break;
-        case bison::astkind::ASSIGN_TO_LOCAL: {
-            auto inst = std::make_shared<::sqf::opcodes::assign_to_local>(::sqf::types::d_string::from_sqf(node.children[1].token.contents));
-            inst->diag_info({ node.token.line, node.token.column, node.token.offset, { *node.token.path, {} }, create_code_segment(contents, node.token.offset, node.token.contents.length()) });
+        case bison::astkind::ASSIGN_TO_LOCAL: if (operand()) {
+            auto inst = std::make_shared<::sqf::opcodes::assign_to_local>(::sqf::types::d_string::from_sqf(operand()->token.contents));
+            inst->diag_info(diag_of(node));
             set.push_back(inst);
         } break;
-        case bison::astkind::GET_VARIABLE: {
-            auto inst = std::make_shared<::sqf::opcodes::get_variable>(::sqf::types::d_string::from_sqf(node.children[1].token.contents));
-            inst->diag_info({ node.token.line, node.token.column, node.token.offset, { *node.token.path, {} }, create_code_segment(contents, node.token.offset, node.token.contents.length()) });
+        case bison::astkind::GET_VARIABLE: if (operand()) {
+            auto inst = std::make_shared<::sqf::opcodes::get_variable>(::sqf::types::d_string::from_sqf(operand()->token.contents));
+            inst->diag_info(diag_of(node));
             set.push_back(inst);
         } break;
-        case bison::astkind::CALL_BINARY: {
-            auto str = std::string(node.children[0].token.contents);
+        case bison::astkind::CALL_BINARY: if (operand()) {
+            auto str = std::string(operand()->token.contents);
             if (!runtime.sqfop_exists_binary(str))
             {
-                __log(logmessage::runtime::InvalidAssemblyInstruction(
-                    runtime.context_active().current_frame().diag_info_from_position(),
-                    str));
+                __log(logmessage::runtime::InvalidAssemblyInstruction(diag_of(node), str));
             }
             else
             {
@@ -120,40 +124,36 @@ void ::sqf::parser::assembly::parser::to_assembly(::sqf::runtime::runtime& runti
                 auto prec = binary_ops.begin()->get().precedence();
 
                 auto inst = std::make_shared<::sqf::opcodes::call_binary>(str, prec);
-                inst->diag_info({ node.token.line, node.token.column, node.token.offset, { *node.token.path, {} }, create_code_segment(contents, node.token.offset, node.token.contents.length()) });
+                inst->diag_info(diag_of(node));
                 set.push_back(inst);
             }
         } break;
-        case bison::astkind::CALL_UNARY: {
-            auto inst = std::make_shared<::sqf::opcodes::call_unary>(std::string(node.children[1].token.contents));
-            inst->diag_info({ node.token.line, node.token.column, node.token.offset, { *node.token.path, {} }, create_code_segment(contents, node.token.offset, node.token.contents.length()) });
+        case bison::astkind::CALL_UNARY: if (operand()) {
+            auto inst = std::make_shared<::sqf::opcodes::call_unary>(std::string(operand()->token.contents));
+            inst->diag_info(diag_of(node));
             set.push_back(inst);
         } break;
-        case bison::astkind::CALL_NULAR: {
-            auto inst = std::make_shared<::sqf::opcodes::call_nular>(std::string(node.children[1].token.contents));
-            inst->diag_info({ node.token.line, node.token.column, node.token.offset, { *node.token.path, {} }, create_code_segment(contents, node.token.offset, node.token.contents.length()) });
+        case bison::astkind::CALL_NULAR: if (operand()) {
+            auto inst = std::make_shared<::sqf::opcodes::call_nular>(std::string(operand()->token.contents));
+            inst->diag_info(diag_of(node));
             set.push_back(inst);
         } break;
         case bison::astkind::END_STATEMENT: {
             auto inst = std::make_shared<::sqf::opcodes::end_statement>();
-            inst->diag_info({ node.token.line, node.token.column, node.token.offset, { *node.token.path, {} }, create_code_segment(contents, node.token.offset, node.token.contents.length()) });
+            inst->diag_info(diag_of(node));
             set.push_back(inst);
         } break;
-        case bison::astkind::PUSH:
-
+        case bison::astkind::PUSH: if (operand()) {
+            auto inst = std::make_shared<::sqf::opcodes::push>(get_value(runtime, contents, *operand()));
+            inst->diag_info(diag_of(node));
+            set.push_back(inst);
+        } break;
         default:
         {
-            bison::astnode previous_node;
-            for (size_t i = 0; i < node.children.size(); i++)
+            // statement lists: the instructions are written out one by one (ENDSTATEMENT is an instruction of its own)
+            for (auto& child : node.children)
             {
-                if (i != 0)
-                {
-                    auto inst = std::make_shared<::sqf::opcodes::end_statement>();
-                    inst->diag_info({ previous_node.token.line, previous_node.token.column + previous_node.token.contents.length(), previous_node.token.offset, { *previous_node.token.path, {} }, create_code_segment(contents, previous_node.token.offset, previous_node.token.contents.length()) });
-                    set.push_back(inst);
-                }
-                previous_node = node.children[i];
-                to_assembly(runtime, contents, previous_node, set);
+                to_assembly(runtime, contents, child, set);
             }
         }
     }
@@ -172,13 +172,18 @@ std::optional<sqf::runtime::instruction_set> sqf::parser::assembly::parser::pars
     ::sqf::parser::assembly::bison::astnode res;
     ::sqf::parser::assembly::bison::parser p(t, res, *this, runtime);
     // p.set_debug_level(1);
+    m_errors = 0;
     bool success = p.parse() == 0;
-    if (!success)
-    {
+    if (!success || m_errors != 0)
+    { // the grammar recovers from syntax errors to report all of them: a text with errors has no instruction set
         return {};
     }
     std::vector<::sqf::runtime::instruction::sptr> vec;
     to_assembly(runtime, contents, res, vec);
+    if (m_errors != 0)
+    { // unknown operator names
+        return {};
+    }
     return vec;
 }
 
@@ -187,6 +192,7 @@ bool ::sqf::parser::assembly::parser::check_syntax(::sqf::runtime::runtime& runt
     tokenizer t(contents.begin(), contents.end(), file.physical);
     ::sqf::parser::assembly::bison::astnode res;
     ::sqf::parser::assembly::bison::parser p(t, res, *this, runtime);
+    m_errors = 0;
     bool success = p.parse() == 0;
-    return success;
+    return success && m_errors == 0;
 }
